@@ -6,7 +6,8 @@ from tools.harness.common import DIALECTS
 ID = 'C20'
 TARGETS = ['MindsVerif.Props.C20']
 THEOREMS = ['MindsVerif.Props.C20.C20_noninterference', 'MindsVerif.Props.C20.C20_result_schedule_independent',
-            'MindsVerif.Props.C20.C20_lazy_global']
+            'MindsVerif.Props.C20.C20_lazy_global', 'MindsVerif.Props.C20.C20_review_lazy_global_any_state',
+            'MindsVerif.Props.C20.C20_review_lazy_global_interleaved', 'MindsVerif.Props.C20.C20_review_noninterference_lazy_write']
 ASSUME = [
     'the theorems cover the logical structure only: calls stepping private state and reading a shared store; '
     'that parse_sql / plan_query / SqlalchemyRender calls have this structure is CHECKED on the real code by this run '
@@ -462,7 +463,10 @@ def run(chk):
     dist.update(jobs=len(jobs), distinct_jobs=len(uniq), history_calls=n_hist, threads=nthreads,
                 hashseeds=len(seeds), kinds={k: sum(1 for j in jobs if j[0] == k) for k in ('parse', 'plan', 'render')},
                 failing_calls=sum(1 for j in uniq if base[j].startswith('exc:')))
-    chk.corr_result('assumptions-of-noninterference', chk.evaluations, 0, None, dist)
+    # not a model/implementation stream: the run-time check of the hypotheses of the theorems; "diverged" = calls whose
+    # result differed from the isolated reference (each is also reported as a failure with its input)
+    nf = [f for f in chk.failures if not f.get('kf')]
+    chk.corr_result('assumptions-of-noninterference', 0, len(nf), (nf[0] if nf else None), dist)
     chk.samples += [dict(job=list(j), result=base[j][:160]) for j in uniq[:4]]
     chk.samples.append(dict(theorem='C20_noninterference: (runSched f sh sched st)[i]? = (st[i]?).map (iter (stepCell f sh) (sched.count i))'))
     return chk.finish(assumptions=ASSUME)
